@@ -90,9 +90,39 @@ def spec_of(scn):
     return scn["spec"]
 
 
+def history_scenarios(bases=None):
+    """The same MODEL OBJECT run a second time after the user gave it another weather table through the public setter (rainfall
+    scenarios in a loop): the second run is the monitored one."""
+    bases = bases or A.WATER_BASES
+    for bi in (0, 2, 4, 8):
+        base = bases[bi]
+        for first in ("dry", "wet", "mix"):
+            if first == base.get("word", "normal"):
+                continue
+            yield {"kind": "config", "base": bi, "config": dict(base), "history": {"kind": "rerun_new_weather", "first_word": first}}
+
+
 def run_with(scn, monitor_cls, pid):
     spec = spec_of(scn)
-    ctx = execute(spec, [monitor_cls()], pid=pid)
+    model = None
+    if scn.get("history"):
+        from ..driver import watchdog
+        first = copy.deepcopy(scn["config"])
+        first["word"] = scn["history"]["first_word"]
+        first.pop("dev", None)
+        spec1 = A.to_spec(first)
+        try:
+            with watchdog(90):
+                model = S.make_model(spec1)
+                model.run_model(till_termination=True)
+                model.weather_df = S.make_weather(spec)      # the public setter
+        except BaseException as e:  # noqa: BLE001
+            if isinstance(e, (KeyboardInterrupt, SystemExit)):
+                raise
+            model = None
+    ctx = execute(spec, [monitor_cls()], pid=pid, model=model)
+    if model is not None:
+        ctx.hit("second_run_of_the_same_model_with_new_weather")
     facts = scenario_facts(spec, scn)
     for v in ctx.violations:
         for k, val in facts.items():
@@ -115,6 +145,7 @@ def scenario_facts(spec, scn=None):
 def water_scenarios(tier, bases=None, menus=None, full=True):
     bases = bases or A.WATER_BASES
     menus = menus or A.WATER_MENUS
+    yield from history_scenarios(bases)
     if tier == "quick":
         yield from config_scenarios(bases, menus, 1)
         yield from weather_scenarios(bases, stride=4)
